@@ -106,13 +106,15 @@ pub(super) async fn sync(
                 txn.set_base_version(new_version_id).await?;
                 base_version_id = new_version_id;
 
-                // make a snapshot if the server indicates it is urgent enough
+                // make a snapshot if the server indicates it is urgent enough. A snapshot must
+                // reflect exactly the state at `new_version_id`, so it can only be made when no
+                // local operations remain to be sent in a later version.
                 let base_urgency = if avoid_snapshots {
                     SnapshotUrgency::High
                 } else {
                     SnapshotUrgency::Low
                 };
-                if snapshot_urgency >= base_urgency {
+                if snapshot_urgency >= base_urgency && local_ops.is_empty() {
                     let snapshot = snapshot::make_snapshot(txn).await?;
                     server.add_snapshot(new_version_id, snapshot).await?;
                 }
